@@ -82,7 +82,11 @@ fn twoq_menu(tier: Tier) -> Vec<(usize, f64, f64)> {
 }
 
 fn wtlfu_menu(tier: Tier) -> Vec<Cfg> {
+    let mut two = wtlfu(1, 1, 1, 3, SEEDS[0], KHKind::Spread);
+    two.versions = 2;
+    two.keys = 3;
     let mut v = vec![
+        two,
         wtlfu(1, 1, 1, 3, SEEDS[0], KHKind::Identity),
         wtlfu(1, 1, 1, 3, SEEDS[1], KHKind::Spread),
         wtlfu(1, 2, 1, 3, SEEDS[0], KHKind::Spread),
@@ -130,11 +134,16 @@ fn policy_menu(kind: Kind, tier: Tier) -> Vec<Cfg> {
             }
             v
         }
-        Kind::TwoQ => twoq_menu(tier).into_iter().map(|(n, rr, gr)| twoq(n, rr, gr, 1)).collect(),
+        Kind::TwoQ => {
+            let mut v: Vec<Cfg> = twoq_menu(tier).into_iter().map(|(n, rr, gr)| twoq(n, rr, gr, 1)).collect();
+            // two value versions, so that a stale or misplaced value is visible
+            v.push(twoq(2, 0.25, 0.5, 2));
+            v.push(twoq(2, 0.5, 1.0, 2));
+            v
+        }
         Kind::Arc => {
-            let mut v = vec![arc(1, 1), arc(2, 1), arc(3, 1)];
+            let mut v = vec![arc(1, 1), arc(2, 1), arc(3, 1), arc(1, 2), arc(2, 2)];
             if tier == Tier::Thorough {
-                v.push(arc(2, 2));
                 let mut big = arc(4, 1);
                 big.keys = 6;
                 big.lean_ops = true;
@@ -316,7 +325,7 @@ pub fn plan(prop: &str, tier: Tier) -> Vec<RunSpec> {
                 let menu: Vec<Cfg> = match (k, tier) {
                     (Kind::Raw, Tier::Quick) => vec![raw(2, 1, 2), raw(3, 1, 1)],
                     (Kind::Raw, Tier::Thorough) => vec![raw(2, 1, 2), raw(3, 1, 1), raw(4, 1, 1), raw(3, 2, 2)],
-                    (Kind::Slru, Tier::Quick) => vec![slru(1, 1, 2), slru(2, 2, 1)],
+                    (Kind::Slru, Tier::Quick) => vec![slru(1, 1, 2), slru(2, 1, 1), slru(1, 2, 1), slru(2, 2, 1)],
                     (Kind::Slru, Tier::Thorough) => vec![slru(1, 1, 2), slru(2, 2, 1), slru(2, 1, 2), slru(3, 2, 1)],
                     (Kind::Wtlfu, Tier::Quick) => vec![wtlfu(1, 1, 1, 3, SEEDS[0], KHKind::Spread)],
                     _ => vec![wtlfu(1, 1, 1, 3, SEEDS[0], KHKind::Spread), wtlfu(1, 2, 1, 3, SEEDS[2], KHKind::Identity), wtlfu(2, 1, 1, 2, SEEDS[1], KHKind::Spread)],
